@@ -55,6 +55,10 @@ class SymVec(object):
     def __iter__(self):
         raise NeedsConcrete('iteration over a symbolic-length vector')
 
+    def __array__(self, *a, **k):
+        # a numpy function that is not overlaid was applied to the vector: not a verdict about the code
+        raise NeedsConcrete('numpy function applied to a symbolic-length vector (not modelled)')
+
     def __len__(self):
         raise NeedsConcrete('len() of a symbolic-length vector must go through the builtins overlay')
 
